@@ -61,6 +61,7 @@ type Step struct {
 	DB    *DBFault  `json:"db,omitempty"`
 	Flag  string    `json:"flag,omitempty"`
 	I     int       `json:"i,omitempty"`
+	J     int       `json:"j,omitempty"`
 	Dur   string    `json:"dur,omitempty"`
 	Opts  *AttachOp `json:"opts,omitempty"`
 }
